@@ -185,6 +185,7 @@ example : TreeInv (fun _ => []) (fun o => if o = 5 then some [] else none) {}
     (Rel.mat 5 "m" (.leaf 1 ⟨1, .iter⟩ [] "L" 0 none true 0)).MultiIter := by
   refine ⟨⟨trivial, ⟨(fun r hr => by cases hr), Nat.zero_le _, (fun m hm => by cases hm)⟩, rfl, ⟨rfl, trivial⟩,
     ⟨by decide, trivial⟩, StoreOK_empty _ _, rfl, ⟨rfl, rfl⟩, fun _ _ => rfl, fun _ _ => rfl,
-    ⟨by simp [Rel.matOids], trivial⟩⟩, rfl, Or.inl ⟨rfl, rfl⟩⟩
+    ⟨by simp [Rel.matOids], trivial⟩, (fun o ho => by simp [Rel.matOids] at ho; omega), by decide⟩, rfl,
+    Or.inl ⟨rfl, rfl⟩⟩
 
 end DafRel.Props.C10
